@@ -1,5 +1,6 @@
 import Qats.Prelude
 import Qats.Model.Gui
+import Qats.Model.GuiSettings
 /-!
 Line-protocol handler for the GUI orchestration model (C19).
 
@@ -97,6 +98,25 @@ def handle : List String → Option String
     some <| match parseCat cat, evs.mapM parseEvent with
       | some c, some es => "ok " ++ joinWith " " ((trace_ (catFun c) init es).map digest)
       | _, _ => "err parse"
+  | "gui.settings" :: n0 :: p0 :: b0 :: d0 :: dialogs =>
+    -- gui.settings <norm 0|1> <nperseg> <nbins> <ndec> <ok:norm:nperseg:nbins:ndec>…   ('-' = widget not touched)
+    -- reply: the application settings after each dialog, `norm,nperseg,nbins,ndec`
+    let optNat? (s : String) : Option (Option Nat) := if s == "-" then some none else s.toNat?.map some
+    let optBool? (s : String) : Option (Option Bool) := if s == "-" then some none else (bool? s).map some
+    let parseDialog (s : String) : Option (Bool × Qats.GuiSettings.Edit) :=
+      match s.splitOn ":" with
+      | [ok, n, p, b, d] => do
+        some ((← bool? ok), { norm := (← optBool? n), nperseg := (← optNat? p), nbins := (← optNat? b), ndec := (← optNat? d) })
+      | _ => none
+    let showApp (a : Qats.GuiSettings.App) : String :=
+      s!"{if a.norm then 1 else 0},{a.nperseg},{a.nbins},{a.ndec}"
+    match bool? n0, p0.toNat?, b0.toNat?, d0.toNat?, dialogs.mapM parseDialog with
+    | some n, some p, some b, some d, some ds =>
+      let step := fun (acc : Qats.GuiSettings.App × List String) (dl : Bool × Qats.GuiSettings.Edit) =>
+        let a' := Qats.GuiSettings.dialog dl.1 dl.2 acc.1
+        (a', acc.2 ++ [showApp a'])
+      some ("ok " ++ joinWith " " (ds.foldl step (⟨n, p, b, d⟩, [])).2)
+    | _, _, _, _, _ => some "err parse"
   | _ => none
 
 end Qats.Driver.Gui
